@@ -35,8 +35,10 @@ CTX = None
 @st.composite
 def series_params(draw):
     p = draw(gen.tissue_params(kinds=("voronoi", "brick", "moebius", "voronoi", "brick", "moebius", "voronoi"),
-                               max_cells=16, min_cells=6, allow_sub=False, n_int_max=6, n_int_min=1, pose=False,
+                               max_cells=16, min_cells=6, allow_sub=True, n_int_max=6, n_int_min=1, pose=False,
                                labels=False))
+    if p.get("sub"):
+        p["sub"]["frac"] = max(p["sub"]["frac"], 0.6)          # ragged outline, cells hanging from one outer side
     if p["kind"] == "brick":
         p["nx"], p["ny"] = min(p["nx"], 4), min(p["ny"], 3)
     p["n_frames"] = draw(st.integers(2, 4))
@@ -618,6 +620,9 @@ class ForSysMachine(RuleBasedStateMachine):
                 return
             self._do({"op": "pbuild", "t": sorted(h.last_solve).index(t)})
             if not h.dead and t in h.pbasis:
+                self._do({"op": "psolve", "t": sorted(h.pbasis).index(t)})
+            if not h.dead and t in h.pbasis:
+                # and once more without rebuilding the pressure matrix
                 self._do({"op": "psolve", "t": sorted(h.pbasis).index(t)})
 
     def teardown(self):
